@@ -871,7 +871,44 @@ class LayerContractCase(Case):
     return [('%s[%s]:%s' % (ac.cls, layer.name, nm), f) for nm, f in ac.post(layer, x, y) if nm != 'ghost']
 
 
-CASES = {'model': ModelCase(), 'layer_contract': LayerContractCase()}
+class LayerWiringCase(Case):
+  """build() of each layer class attaches, to every trainable variable, a constraint whose proved contract implies
+  the invariant of the LAYER's own hyperparameters (the premise of the abstract call contracts), for enumerated
+  hyperparameters incl. one-sided, zero and absent bounds."""
+  contract_key = None
+  xcheck = False
+
+  def body(self, cfg, c):
+    notes = set()
+    cls = getattr(load.mod(cfg['module']), cfg['cls'])
+    kw = {}
+    for k, v in cfg['kw'].items():
+      if isinstance(v, list) and v and isinstance(v[0], list) and k != 'input_keypoints':
+        v = [tuple(t) for t in v]
+      kw[k] = v
+
+    def provider(layer, name, shape, dt, init, cons):
+      if not getattr(layer, '_vt_adding_trainable', True):
+        return None
+      return reachable(c, layer, name, shape, dt, cons, notes)
+    kerasc.WEIGHT_PROVIDER[0] = provider
+    try:
+      layer = cls(**kw)
+      layer.build(tfc.TensorShape(cfg['input_shape']))
+    except ValueError as e:
+      return [('configuration-rejected-up-front (C16): %s' % str(e)[:60], E.TRUE)]
+    finally:
+      kerasc.WEIGHT_PROVIDER[0] = None
+    ac = [a for a in ABSTRACT if a.cls == cfg['cls']][0]
+    if isinstance(ac, KflCall):
+      x = tfc.sym([1] + list(cfg['input_shape'][1:]), 'x')
+      for v in x.a.flat:
+        c.assume((P.lift(v) >= 0) & (P.lift(v) <= layer.lattice_sizes - 1), 'in range')
+      return [('layer-invariant:' + n, b) for n, b in ac.pre(layer, x) if 'constraint-has' in n]
+    return [('layer-invariant:' + n, b) for n, b in ac.invariant(layer)] + [('has-obligations', E.TRUE)]
+
+
+CASES = {'model': ModelCase(), 'layer_contract': LayerContractCase(), 'layer_wiring': LayerWiringCase()}
 
 
 # ------------------------------------------------------------------ configurations
@@ -996,6 +1033,30 @@ def configs(tier, rng):
   jobs = []
   for spec in model_specs(tier):
     jobs += jobs_for(spec)
+  bounds = ((None, None), (0.0, None), (None, 1.0), (-1.0, 2.0), (0.0, 0.0))
+  for (lo, hi) in bounds:
+    b = dict(output_min=lo, output_max=hi)
+    for units in (1, 2):
+      jobs.append(('layer_wiring', dict(module='lattice_layer', cls='Lattice', input_shape=[None, 2] if units == 1 else [None, units, 2],
+                                        kw=dict(b, lattice_sizes=[2, 3], units=units, monotonicities=['increasing', 'none']))))
+      jobs.append(('layer_wiring', dict(module='lattice_layer', cls='Lattice', input_shape=[None, 2] if units == 1 else [None, units, 2],
+                                        kw=dict(b, lattice_sizes=[3, 2], units=units, monotonicities=[0, 1], edgeworth_trusts=[[1, 0, -1]]))))
+      for missing in (False, True):
+        kw = dict(b, input_keypoints=[0.0, 1.0, 3.0], units=units, monotonicity='decreasing')
+        if missing:
+          kw.update(impute_missing=True, missing_input_value=0.0)
+        jobs.append(('layer_wiring', dict(module='pwl_calibration_layer', cls='PWLCalibration', input_shape=[None, units], kw=kw)))
+      jobs.append(('layer_wiring', dict(module='categorical_calibration_layer', cls='CategoricalCalibration', input_shape=[None, units],
+                                        kw=dict(b, num_buckets=3, units=units, monotonicities=[[0, 1], [1, 2]], default_input_value=0))))
+      jobs.append(('layer_wiring', dict(module='kronecker_factored_lattice_layer', cls='KroneckerFactoredLattice',
+                                        input_shape=[None, 2] if units == 1 else [None, units, 2],
+                                        kw=dict(b, lattice_sizes=2, units=units, num_terms=2, monotonicities=['increasing', 'none']))))
+  for units in (1, 2):
+    for kw in (dict(num_input_dims=3, monotonicities=['increasing', 'decreasing', 'none']),
+               dict(num_input_dims=2, monotonicities=[1, 1], normalization_order=1, use_bias=False),
+               dict(num_input_dims=2, monotonicities=[1, 1], monotonic_dominances=[[0, 1]])):
+      jobs.append(('layer_wiring', dict(module='linear_layer', cls='Linear', input_shape=[None, kw['num_input_dims']] if units == 1 else
+                                        [None, units, kw['num_input_dims']], kw=dict(kw, units=units))))
   return jobs
 
 
